@@ -67,11 +67,12 @@ def load_one(lit: LineIterator) -> dict:
     atcoords = np.empty((natom, 3), float)
     atnums = np.empty(natom, int)
     for iatom in range(natom):
-        words = next(lit).split()
-        atcoords[iatom, 0] = float(words[0]) * angstrom
-        atcoords[iatom, 1] = float(words[1]) * angstrom
-        atcoords[iatom, 2] = float(words[2]) * angstrom
-        atnums[iatom] = sym2num.get(words[3].title())
+        # Atom lines have fixed-width fields: xxxxx.xxxxyyyyy.yyyyzzzzz.zzzz aaa
+        line = next(lit)
+        atcoords[iatom, 0] = float(line[0:10]) * angstrom
+        atcoords[iatom, 1] = float(line[10:20]) * angstrom
+        atcoords[iatom, 2] = float(line[20:30]) * angstrom
+        atnums[iatom] = sym2num.get(line[31:34].strip().title())
     bonds = np.empty((nbond, 3), int)
     for ibond in range(nbond):
         line = next(lit)
